@@ -32,7 +32,7 @@ func (Engine) Runs(prop, tier string) int {
 	if tier == "thorough" {
 		return 60000
 	}
-	return 2500
+	return 4000
 }
 func (Engine) Real() []string {
 	return []string{"sign/dss (NewDSS, PartialSig, ProcessPartialSig, EnoughPartialSig, Signature, Verify)",
